@@ -128,6 +128,8 @@ def curated():
     w2 = fac("w", A2)
     out.append(D("within-uncrossed", [c2, w2, cong], cross(["c", "w", "k"], ["c", "w"]), ["within"]))
     out.append(D("within-crossed", [c2, w2, cong], cross(["c", "w", "k"], ["c", "k"]), ["within", "derived-crossed"]))
+    out.append(D("within-only-crossed-min4", [c2, w2, cong], cross(["c", "w", "k"], ["k"], [["MinimumTrials", 4]]), ["within", "derived-crossed", "mintrials"]))
+    out.append(D("within-only-crossed-min5", [c2, w2, cong], cross(["c", "w", "k"], ["k"], [["MinimumTrials", 5]]), ["within", "derived-crossed", "mintrials", "partial"]))
     out.append(D("within-atmost", [c2, w2, cong], cross(["c", "w", "k"], ["c", "w"], [["AtMostKInARow", 1, "k", "same"]]), ["within", "atmost"]))
     out.append(D("within-exclude-derived", [c2, w2, cong], cross(["c", "w", "k"], ["c", "k"], [["Exclude", "k", "same"]], rcc=False), ["within", "exclude"]))
     # Exclude of a within-trial derived level whose sources are not all crossed (nothing removes it by construction in the combinatoric sampler)
@@ -158,6 +160,12 @@ def curated():
     out.append(D("window1-stride3+transition", [c2, d2, window_last("v", "c", A2, 1, stride=3), tr], cross(["c", "d", "v", "t"], ["c", "d"], [["AtMostKInARow", 1, "v", "hit"], ["AtMostKInARow", 2, "t", "rep"]]), ["window", "stride", "transition", "two-complex", "atmost"]))
     out.append(D("window2-stride2+transition", [c2, d2, window_last("v", "c", A2, 2, stride=2), tr], cross(["c", "d", "v", "t"], ["c", "d"], [["AtMostKInARow", 1, "v", "hit"], ["AtMostKInARow", 2, "t", "rep"]]), ["window", "stride", "transition", "two-complex", "atmost"]))
     out.append(D("transition+window2-stride2", [c2, d2, tr, window_last("v", "d", ["x", "y"], 2, stride=2, first="x")], cross(["c", "d", "t", "v"], ["c", "d"], [["AtMostKInARow", 1, "v", "hit"], ["AtMostKInARow", 2, "t", "rep"]]), ["window", "stride", "transition", "two-complex", "atmost"]))
+    # strided windows with a non-default start, decided by the solver (a lax constraint makes the factor part of the formula)
+    lax = [["AtMostKInARow", 9, "v", "hit"], ["MinimumTrials", 6]]
+    out.append(D("window1-stride2-start1-reified", [c2, window_last("v", "c", A2, 1, stride=2, start=1)], cross(["c", "v"], ["c"], lax), ["window", "stride", "start", "atmost", "mintrials"]))
+    out.append(D("window2-stride2-start3-reified", [c2, window_last("v", "c", A2, 2, stride=2, start=3)], cross(["c", "v"], ["c"], lax), ["window", "stride", "start", "atmost", "mintrials"]))
+    out.append(D("window2-stride3-start0-reified", [c2, window_last("v", "c", A2, 2, stride=3, start=0)], cross(["c", "v"], ["c"], lax), ["window", "stride", "start", "atmost", "mintrials"]))
+    out.append(D("window3-stride2-reified", [c2, window_last("v", "c", A2, 3, stride=2)], cross(["c", "v"], ["c"], lax), ["window", "stride", "atmost", "mintrials"]))
     out.append(D("window2-crossed", [c2, window_last("v", "c", A2, 2)], cross(["c", "v"], ["c", "v"]), ["window", "derived-crossed", "preamble"]))
     out.append(D("window2-stride2-atmost", [c2, d2, window_last("v", "c", A2, 2, stride=2)],
                  cross(["c", "d", "v"], ["c", "d"], [["AtMostKInARow", 1, "v", "hit"]]), ["window", "stride", "atmost"]))
